@@ -270,6 +270,15 @@ def tasks(tier, seed):
         out.append(Task('bound', bound,
                         seed=core.derive_seed(seed, ID, 'bound', i),
                         max_examples=ex))
+    if tier == 'thorough':
+        from vcheck import fuzzrun
+        for i, (kind, max_len) in enumerate(
+                [('small', 40000)] * 8 + [('empty', 4096)] * 4 +
+                [('vhdx', 340000)] * 4):
+            out.append(Task('atheris', fuzzrun.campaign, target='c05',
+                            seed=core.derive_seed(seed, ID, 'atheris', i),
+                            runs=200000, max_len=max_len, seeds=kind,
+                            max_time=170))
     return out
 
 
